@@ -453,7 +453,7 @@ class C04(Profile):
                 st["faults"][pk]["recovered"] += 1
         self._model_update(world, op, out, fkind, kind)
         if fkind:
-            world.aftermath = 3      # a failure may have left something behind at module level that fools a twin as well
+            world.aftermath = 1      # a failure may have left something behind at module level that fools a twin as well
         viol = self._check(world, op, out, step, kind, fkind, pre)
         if world.aftermath > 0:
             world.aftermath -= 1
@@ -676,7 +676,7 @@ class C04(Profile):
                 why = outcomes_agree(got, ref, rtol)
                 if why:
                     bad[x] = (why, got, ref)
-            if not moved and not bad and ((cs + len(pname)) % 48 == 0 or world.aftermath > 0):
+            if not moved and not bad and ((cs + len(pname)) % 96 == 0 or (world.aftermath > 0 and pname in affected)):
                 v = self._clean_check(world, pname, obj, now, base, kind)
                 if v:
                     return v
